@@ -99,7 +99,12 @@ func (f *fuzzRun) one(fm fuzzMsg) bool {
 				return false
 			}
 		} else if c.nReplies(op) == 0 {
-			f.viol(finding{Sig: "C13:missing-reply:" + fm.Class, What: fm.Class + " request was neither established nor answered", Detail: opDetail(op, nil)}, fm)
+			var gtxt []string
+			for _, g := range portbaseGoroutines(dumpGoroutines()) {
+				gtxt = append(gtxt, clip(g.Text, 1200))
+			}
+			f.viol(finding{Sig: "C13:missing-reply:" + fm.Class, What: fm.Class + " request was neither established nor answered",
+				Detail: opDetail(op, map[string]any{"parked_before": before, "parked_after": after, "portbase_goroutines_now": gtxt})}, fm)
 		}
 	default: // get query create update insert delete
 		op = c.requestRaw(fm.First, fm.Class, fm.Msg, fm.Tag, "")
